@@ -430,9 +430,9 @@ def run_case(case, ctx):
 # ------------------------------------------------------------------------------------------
 HOSTILE = ["{path}", "{root}", "{0}", "%s", "%", "';--", "a'b''c", "''", "x;y", "nl\nx", "tab\tx", "?", ":pid",
            ":name", "*", "--", "/*".replace("/", "|"), " ", "A", "a", "a ", "NULL", "loaded", "meta", "é", "é"]
-_PART = st.one_of(st.sampled_from(gen.NAMES), st.sampled_from(HOSTILE), st.sampled_from(["a", "b", "dir"]),
-                  gen.names())
-_KEY = st.lists(_PART, min_size=0, max_size=4)
+ALL_PARTS = gen.NAMES + HOSTILE + ["a", "b", "dir", "a", "b", "dir"]
+_PART = st.one_of(st.sampled_from(ALL_PARTS), st.sampled_from(ALL_PARTS), st.sampled_from(ALL_PARTS), gen.names())
+_KEY = st.lists(_PART, min_size=1, max_size=4)
 HEX = ["d41d8cd98f00b204e9800998ecf8427f", "0" * 32, "abcdefabcdefabcdefabcdefabcdefab",
        "9e107d9d372bb6826bd81d3542a419d6.dir", "00112233445566778899aabbccddeeff.dir",
        "e3b0c44298fc1c149afbf4c8996fb92427ae41e4649b934ca495991b7852b855"]
@@ -453,27 +453,45 @@ _META_FIELDS = {
     "mtime": st.one_of(st.none(), st.floats(0, 2e9)),
     "nlink": st.integers(1, 3),
 }
+META_TEMPLATES = [
+    None, None, {}, {"size": 0}, {"size": 0, "nfiles": 0}, {"size": 1, "isexec": True},
+    {"isdir": True, "nfiles": 0, "size": 0}, {"isdir": True, "nfiles": 3, "size": 2 ** 31},
+    {"isdir": False, "isexec": False}, {"isexec": False, "size": None}, {"size": 2 ** 63 - 1},
+    {"size": 2 ** 53 + 1, "md5": HEX[0]}, {"md5": ""}, {"md5": HEX[3], "isdir": True, "nfiles": 1000},
+    {"etag": "", "version_id": ""}, {"etag": '"quoted-etag"', "version_id": "null", "size": 5},
+    {"checksum": "\u00dcn\u00ef", "remote": "my remote"}, {"remote": ""}, {"remote": "origin", "size": 0},
+    {"version_id": "0", "etag": "0", "checksum": "0", "md5": "0" * 32, "remote": "0", "size": 0, "nfiles": 0,
+     "isdir": True, "isexec": True},
+    {"inode": 12345, "mtime": 1.5e9, "nlink": 2}, {"inode": 1, "size": 0, "mtime": 0.0},
+    {"size": 511, "isexec": True, "inode": 7, "mtime": 1234567890.123456},
+    {"checksum": "it's", "etag": "a/b", "version_id": "{x}"},
+]
 _META = st.one_of(
-    st.none(),
-    st.just({}),
+    st.sampled_from(META_TEMPLATES),
+    st.sampled_from(META_TEMPLATES),
+    st.sampled_from(META_TEMPLATES),
+    st.sampled_from(META_TEMPLATES),
+    st.sampled_from(META_TEMPLATES),
     st.fixed_dictionaries({}, optional=_META_FIELDS),
     st.fixed_dictionaries({}, optional={k: v for k, v in _META_FIELDS.items() if k in SERIALISED}),
 )
-_HASH = st.one_of(
-    st.none(),
-    st.tuples(st.sampled_from(["md5", "md5", "md5-dos2unix", "sha256", "etag", "checksum", None, ""]),
-              st.one_of(st.sampled_from(HEX), st.sampled_from(["", None, '"etag-1"', "Ünï"]))).map(list),
-    st.tuples(st.sampled_from(["md5", "etag"]), st.sampled_from(HEX), st.sampled_from([None, "obj", ""])).map(list),
+HASH_NAMES = ["md5", "md5", "md5-dos2unix", "sha256", "etag", "checksum", None, ""]
+HASH_VALUES = [*HEX, "", None, '"etag-1"', "\u00dcn\u00ef"]
+HASH_POOL = (
+    [None] * 12
+    + [[n, v] for n in HASH_NAMES for v in HASH_VALUES]
+    + [[n, v, o] for n in ("md5", "etag") for v in HEX[:4] for o in (None, "obj", "")]
 )
-_SET = st.fixed_dictionaries({"op": st.just("set"), "key": _KEY, "meta": _META, "hash": _HASH,
-                              "loaded": st.sampled_from([None, True, False])})
-_OPS = st.lists(_SET, min_size=1, max_size=8)
+_HASH = st.sampled_from(HASH_POOL)
+_SET = st.tuples(_KEY, _META, _HASH, st.sampled_from([None, True, False])).map(
+    lambda t: {"op": "set", "key": t[0], "meta": t[1], "hash": t[2], "loaded": t[3]})
+_OPS = st.lists(_SET, min_size=1, max_size=6)
 _FORMS = st.sampled_from([
     ["json", "tree"], ["json", "tree"], ["json"], ["tree"], ["json", "tree"], ["json", "tree"],
     ["sqlite"], ["sqlite"], ["db"], ["json", "db", "sqlite", "tree"],
 ])
 _EXTRA = st.tuples(
-    st.lists(st.tuples(st.sampled_from(["dup", "dup", "prefix", "del", "child"]), st.integers(0, 7),
+    st.lists(st.tuples(st.sampled_from(["dup", "prefix", "del", "child", "root"]), st.integers(0, 7),
                        st.integers(0, 9)), max_size=3),
     _FORMS,
     st.integers(0, 8),
@@ -492,6 +510,8 @@ def cases(draw):
         other = orig[pos % len(orig)]
         if kind == "dup":
             new = dict(other, key=base["key"])
+        elif kind == "root":
+            new = dict(other, key=[])
         elif kind == "prefix":
             if len(base["key"]) < 2:
                 continue
@@ -507,7 +527,7 @@ def cases(draw):
 
 
 def run(ctx):
-    ctx.run_given(cases(), run_case, ctx.n(quick=900, thorough=12000))
+    ctx.run_given(cases(), run_case, ctx.n(quick=600, thorough=12000))
 
 
 def replay(case, ctx):
